@@ -11,7 +11,6 @@ CONSTANTS
   MaxBig = 1
   AllowClose = TRUE
   MaxAhead = 4
-  FixD1 = TRUE
   FixD3 = TRUE
   FixD4 = TRUE
   FixD5 = TRUE
